@@ -56,7 +56,8 @@ func (rt *runtime) cmplEvaluateNodeExpression(node nodeExpression) Value {
 
 		value := objectValue(rt.newNodeFunction(node, local))
 		if node.name != "" {
-			local.createBinding(node.name, false, value)
+			// The name of a function expression is an immutable binding of its own scope (13)
+			local.(*dclStash).createImmutableBinding(node.name, value)
 		}
 		return value
 
